@@ -147,6 +147,9 @@ def paths(t, envspec, cx, slices):
     yield "simplify", lambda: fresh().simplify()
     yield "simplify-bitslice", lambda: fresh().simplify(bitslice=True)
     yield "simplify-widening", lambda: fresh().simplify(widening=True)
+    # nodes made with the node constructor (no rewriting at construction), then simplified
+    yield "raw-simplify", lambda: R.build(t, raw=True).simplify()
+    yield "raw-simplify-bitslice", lambda: R.build(t, raw=True).simplify(bitslice=True)
     for name, binds in envspec.items():
         def ev(binds=binds):
             m = mapper()
